@@ -13,7 +13,7 @@ RULE = ("(ref, query, k) cases are executed on symdel(seqs2=), nearest_neighbor(
 ASSUMPTIONS = ["an index object may change its internal state on look-ups (e.g. memoisation); only the answers are judged, and the BFS expands every new canonical state (all instance attributes, contents included) up to the depth bound",
                "LookupDB enumerates the 20-letter edit ball: k<=2 only for short strings (cost), k=3 only on U(AC,1)",
                "index state = (variant_dict / seq_dict contents, seqs, max_edits); other attributes do not exist on these classes (checked: vars())"]
-REQUIRED_CLASSES = {"all": ["q-equals-r-position-hit", "identical-sequence-d0", "duplicate-in-ref", "duplicate-in-query", "history-step", "same-object-both-sides", "history-changes-max_edits", "progress-option", "max_custom_distance-without-custom-distance", "history-with-failed-lookup", "non-amino-acid-symbols", "more-than-1000-queries", "more-than-500-candidates-per-query"]}
+REQUIRED_CLASSES = {"all": ["q-equals-r-position-hit", "identical-sequence-d0", "duplicate-in-ref", "duplicate-in-query", "history-step", "same-object-both-sides", "history-changes-max_edits", "progress-option", "max_custom_distance-without-custom-distance", "history-with-failed-lookup", "non-amino-acid-symbols", "more-than-1000-queries", "more-than-500-candidates-per-query", "radius-3-sparse-reference"]}
 MIN_OUTCOMES = 10
 
 ENG = ("symdel2", "nn2", "SymdelDB", "LookupDB")
@@ -85,6 +85,9 @@ def spaces(tier):
         for eng in ("symdel2", "nn2", "SymdelDB"):
             for mode in ("lev", "hamming"):
                 yield ("scan", eng, mode)
+        # sparse references at radius 3 (stepping stones absent; more than five distinct references in range of one query)
+        for eng in ("LookupDB", "SymdelDB", "symdel2"):
+            yield ("sparse3", eng)
         # LookupDB: ball enumeration over 20 letters is exponential in k
         for alpha, L, k in ([("AC", 4, 1), ("ACD", 3, 1), ("AC", 2, 2), ("AC", 1, 3)] if q else
                             [("AC", 6, 1), ("ACD", 4, 1), ("AC", 3, 2), ("ACD", 2, 2), ("AC", 1, 3)]):
@@ -263,6 +266,14 @@ def check_case(case, acc):
             acc.fail("%s/%s/mutational-scan-reference/%s" % (eng, mode, bad[0]), case, len(expected), digest(res)[:10] if not isinstance(digest(res), str) else digest(res), note=str(bad)[:200])
         else:
             acc.ok((eng, mode, len(expected)), nontrivial=True)
+    elif kind == "sparse3":
+        eng = case[1]
+        acc.cls("radius-3-sparse-reference")
+        for ref, query in (((""," A".strip(), "C", "AD", "CC", "ACD", "ACDE", "WWWWW", "AC"), ("AC", "WWW")), (("ACD", "EFG", "WW"), ("EFG", "AFD", "W")), (("C", "A"), ("ACD", "CCCC"))):
+            for k in (3, 2):
+                expected = neighbors_within(list(ref), k, queries=list(query))
+                if not _compare(acc, ("rq1", tuple(ref), tuple(query), k, eng), eng, list(ref), list(query), k, run_engine(acc, eng, list(ref), list(query), k), expected):
+                    return
     elif kind == "few-queries":
         # fewer queries than references, non-standard symbols on the reference side
         _, alpha, k, eng = case
